@@ -6,8 +6,8 @@ LEVEL = "model_checking"
 RULE = ("one record = MatchString, MatchRunes, FindStringMatch, FindRunesMatch, both StartingAt forms at every rune offset, both "
         "FindNextMatch chains, FindAll{String,Runes}Index for n in {-1,0,1,2,3}, the matches handed to a ReplaceFunc evaluator, "
         "Replace and Split, for one pattern x one byte-string input (30% with injected invalid UTF-8). Rules entry.*: every entry "
-        "point equals API.tla's function of one search function (RegexSem.Find inside the fragment, the recorded rune searches "
-        "outside: nullable loops, \\G, balancing groups), string results = rune results. non-trivial = records whose chain has >= 2 matches")
+        "point equals API.tla's function of one search function (RegexSem.Find for the whole syntax incl. nullable loops, \\G and balancing groups - "
+        "profile 'balancing': a group popped by (?<x-n>..) in every pattern, direction-aware; the recorded rune searches only for explicitly numbered sparse groups), string results = rune results. non-trivial = records whose chain has >= 2 matches")
 STREAM = 100
 QUICK = [("frag", ["-n", "500", "-rtl", "both"]), ("wide", ["-n", "800", "-profile", "wide", "-rtl", "both"]),
          ("bal", ["-n", "300", "-profile", "balancing", "-rtl", "both"])]
